@@ -23,9 +23,10 @@ fn body_src(kind: &str) -> &'static str {
 fn render(tests: &[T]) -> String {
     let mut s = String::from("from testing import assert_eq\n\n");
     s.push_str("def helper_not_a_test() -> int:\n    return 1\n\n");
-    for t in tests {
+    for (i, t) in tests.iter().enumerate() {
         if t.skip {
-            s.push_str("@skip(\"not now\")\n");
+            // every documented spelling of the marker (`@skip(reason: str = "")`)
+            s.push_str(["@skip(\"not now\")\n", "@skip\n", "@skip()\n", "@skip(reason=\"later\")\n"][i % 4]);
         }
         if t.xfail {
             s.push_str("@xfail(\"known\")\n");
@@ -111,6 +112,24 @@ pub fn run(out: &mut Out, tier: &str, seed: u64, scratch: &str) {
     scenario(out, scratch, &base, "-", true, true);
     scenario(out, scratch, &[t("test_only_ok", false, false, false, "pass"), t("test_div", false, false, false, "divzero")], "-", false, false);
     scenario(out, scratch, &[t("test_a", false, false, false, "pass"), t("test_b", false, true, false, "panic")], "-", false, false);
+    // -x must stop at the first FAILED test only: an expected failure (XFAIL), a skip and a pass do not stop the run
+    scenario(
+        out,
+        scratch,
+        &[t("test_a_known_bug", false, true, false, "assert"), t("test_b_skipped", true, false, false, "assert"), t("test_c_ok", false, false, false, "pass"), t("test_d_broken", false, false, false, "assert"), t("test_e_never", false, false, false, "pass")],
+        "-",
+        false,
+        true,
+    );
+    // all four spellings of @skip on failing bodies: none may be executed
+    scenario(
+        out,
+        scratch,
+        &[t("test_s0", true, false, false, "assert"), t("test_s1", true, false, false, "panic"), t("test_s2", true, false, false, "assert"), t("test_s3", true, false, false, "divzero"), t("test_ok", false, false, false, "pass")],
+        "-",
+        false,
+        false,
+    );
     if tier == "thorough" {
         for _ in 0..6 {
             let n = 2 + rng.below(4) as usize;
